@@ -405,7 +405,9 @@ func Keys[K comparable, V any](m map[K]V) []K {
 			infra("Keys: unsupported map key type %T", k0)
 		}
 	}
-	if s != nil && live() != nil {
+	// (Not inside the observer's atomic section: sampling public state must not draw from the
+	// PRNG, or adding an observation would change the schedule of the run.)
+	if s != nil && live() != nil && !s.atomic {
 		for i := len(keys) - 1; i > 0; i-- {
 			j := int(s.maprng.Uint64() % uint64(i+1))
 			keys[i], keys[j] = keys[j], keys[i]
